@@ -118,9 +118,19 @@ extern "C" void verif_harness() {
       SimpleDiscreteDistribution d(v, p); checkNormalised(d, n, "simple"); checkLookups(d, n, "S"); Vdouble c = d.getCategories(), q = d.getProbabilities(); for (int i = 0; i < n; i++) { SYM_ASSERT(c[i] == v[i], "user-specified class value changed"); SYM_ASSERT_EQ(q[i], p[i], "user-specified probability changed"); } }
     else if (kind == 1) { double v = symd("value"); ConstantDistribution d(v); checkNormalised(d, 1, "constant"); SYM_ASSERT(d.getCategory(0) == v, "constant distribution has another value"); }
     else if (kind == 2) { double pinv = symd("pInvariant"); SYM_ASSUME(pinv > 0.001 && pinv < 0.999); int n = __sym_choose("classes", 1, NCMAX); double a = sympos("min"), w = sympos("width"); SYM_ASSUME(w > 0.001);
-      InvariantMixedDiscreteDistribution d(unique_ptr<DiscreteDistributionInterface>(new UniformDiscreteDistribution((unsigned)n, a, a + w)), pinv, 0.0); checkNormalised(d, n + 1, "invariant-mixed"); checkLookups(d, n + 1, "I");
-      SYM_ASSERT(d.getCategory(0) == 0.0, "the invariant class is not the first class"); SYM_ASSERT_EQ(d.getProbability((size_t)0), pinv, "the invariant class does not carry the invariant proportion");
-      UniformDiscreteDistribution u((unsigned)n, a, a + w); for (int i = 0; i < n; i++) { SYM_ASSERT_EQ(d.getCategory(i + 1), u.getCategory(i), "variable classes differ from the sub-distribution's"); SYM_ASSERT_EQ(d.getProbability((size_t)(i + 1)), (1 - pinv) * u.getProbability((size_t)i), "variable class probability is not (1-p) times the sub-distribution's"); } }
+      // the invariant: 0 (the usual case, below every class) or any real, at least 0.001 away from every class value of the nested distribution (an invariant equal to a nested class value merges two classes: outside)
+      int anywhere = __sym_choose("invariantAnywhere", 0, 1); double inv = anywhere ? symd("invariant") : 0.0;
+      UniformDiscreteDistribution u((unsigned)n, a, a + w); int pos = 0; for (int i = 0; i < n; i++) { double ci = u.getCategory(i); SYM_ASSUME(inv - ci > 0.001 || ci - inv > 0.001); if (inv > ci) pos = i + 1; }
+      InvariantMixedDiscreteDistribution d(unique_ptr<DiscreteDistributionInterface>(new UniformDiscreteDistribution((unsigned)n, a, a + w)), pinv, inv);
+      int op = __sym_choose("then", 0, 2);    // one history step: nothing, a new invariant proportion, a new class count of the nested distribution
+      if (op == 1) { double p2 = symd("pInvariant2"); SYM_ASSUME(p2 > 0.001 && p2 < 0.999); SYM_ASSUME(p2 - pinv > 1e-6 || pinv - p2 > 1e-6); d.setParameterValue("p", p2); pinv = p2; }
+      else if (op == 2 && !anywhere) { n = __sym_choose("newClasses", 1, NCMAX); d.setNumberOfCategories((size_t)n); }   // (documented: the count of the nested distribution)
+      checkNormalised(d, n + 1, "invariant-mixed"); checkLookups(d, n + 1, "I");
+      UniformDiscreteDistribution u2((unsigned)n, a, a + w);
+      SYM_ASSERT(d.getCategory((size_t)pos) == inv, "the invariant class is not at its place among the ordered class values"); SYM_ASSERT_EQ(d.getProbability((size_t)pos), pinv, "the invariant class does not carry the invariant proportion");
+      for (int i = 0; i < n; i++) { size_t k = (size_t)(i < pos ? i : i + 1); SYM_ASSERT_EQ(d.getCategory(k), u2.getCategory(i), "variable classes differ from the sub-distribution's"); SYM_ASSERT_EQ(d.getProbability(k), (1 - pinv) * u2.getProbability((size_t)i), "variable class probability is not (1-p) times the sub-distribution's"); }
+      Vdouble b = d.getBounds(), c = d.getCategories(); SYM_ASSERT(b.size() == (size_t)n + 2, "bounds vector of the invariant-mixed distribution has the wrong length");
+      for (int k = 0; k <= n; k++) { SYM_ASSERT(b[k] <= b[k + 1], "class bounds are not non-decreasing"); SYM_ASSERT(c[k] >= b[k] && c[k] <= b[k + 1], "a class value lies outside its own class interval"); } }
     else { int nc = __sym_choose("components", 2, 3); vector<int> ncl(nc); vector<double> lo(nc), wd(nc), wt(nc); double S = 0, x = sympos("min1");
       for (int k = 0; k < nc; k++) { ncl[k] = __sym_choose(("classes" + to_string(k + 1)).c_str(), 1, 2); lo[k] = x; wd[k] = sympos("width" + to_string(k + 1)); SYM_ASSUME(wd[k] > 0.001); x = x + wd[k] + sympos("gap" + to_string(k + 1)) + 0.01; wt[k] = sympos("weight" + to_string(k + 1)); S += wt[k]; }
       vector<unique_ptr<DiscreteDistributionInterface>> comps; vector<double> pr(nc); for (int k = 0; k < nc; k++) { comps.emplace_back(new UniformDiscreteDistribution((unsigned)ncl[k], lo[k], lo[k] + wd[k])); pr[k] = wt[k] / S; }
